@@ -80,10 +80,6 @@ def expectLazy (it : Iter) (ty : Int) : Res (Bool × Iter) := do
   let (b, it2) ← expect it ty
   if b then pure (true, it2) else pure (false, it)
 
-/-- `fileContent[lo:hi]`. -/
-def slice (tx : Bytes) (lo hi : Nat) : Res Bytes :=
-  if lo ≤ hi ∧ hi ≤ tx.length then .ok ((tx.take hi).drop lo) else .panic
-
 /-- loop of `parseCommentBefore`: returns the final `begin`. `it.offset < end.offset` is `it.length > endLen`. -/
 def commentBeforeLoop (endLen : Nat) : Iter → Iter → Bool → Res Iter
   | [], begin, _ => if 0 > endLen then .panic else .ok begin
@@ -583,12 +579,9 @@ def parseFuncDecl (tx : Bytes) (fuel : Nat) (tokens : Iter) (pos : Pos) (name : 
           let _ ← front rest
           pure (st, rest, { r1 with ret := .struct sd })
 
-/-- `parseTL2Combinator`: `(combinator, rest, error)`. -/
-def parseCombinator (tx : Bytes) (fuel : Nat) (it : Iter) : Res (Comb × Iter × Option PErr) := do
-  let rest ← skipWS it
-  let t0 ← front rest
-  let outer := t0.pos
-  let cb ← parseCommentBefore tx it rest
+/-- `parseTL2Combinator` after the leading white space was skipped (`rest`), `outer` and the comment were computed. -/
+def parseCombinatorBody (tx : Bytes) (fuel : Nat) (rest : Iter) (outer : Pos) (cb : Bytes) :
+    Res (Comb × Iter × Option PErr) := do
   let (st, rest, anns) ← zeroOrMore parseAnnotation fuel rest outer [] false
   let dummy : Comb := { anns := [], decl := .type default, cb := [] }
   match st.err with
@@ -618,6 +611,13 @@ def parseCombinator (tx : Bytes) (fuel : Nat) (it : Iter) : Res (Comb × Iter ×
         else pure st : Res OState)
       let _ ← front rest
       pure ({ anns := anns, decl := decl, cb := cb }, rest, st.err)
+
+/-- `parseTL2Combinator`: `(combinator, rest, error)`. -/
+def parseCombinator (tx : Bytes) (fuel : Nat) (it : Iter) : Res (Comb × Iter × Option PErr) := do
+  let rest ← skipWS it
+  let t0 ← front rest
+  let cb ← parseCommentBefore tx it rest
+  parseCombinatorBody tx fuel rest t0.pos cb
 
 /-- the `for !it.expectLazy(eof)` loop of ParseTL2File. -/
 def parseFileLoop (tx : Bytes) (fuel : Nat) : Nat → Iter → List Comb → Res (Except PErr File)
